@@ -48,9 +48,9 @@ using W = gmlc::libguarded::ordered_guarded<P2, MTX>;
 #define MAKE() new W(P2{0, 0})
 #endif
 // FORM: 1 try_lock 2 try_lock_for 3 try_lock_until 4 try_lock_shared 5 try_lock_shared_for 6 try_lock_shared_until
-//       7 lock (blocking, exclusive) 8 lock_shared (blocking)
+//       7 lock (blocking, exclusive) 8 lock_shared (blocking) 9 const lock() (blocking, shared; shared_guarded / shared_guarded_opt)
 // HOLD: 0 nobody 1 exclusive handle 2 shared handle (held by thread X across Y's attempt)
-#define SHARED_FORM (FORM == 4 || FORM == 5 || FORM == 6 || FORM == 8)
+#define SHARED_FORM (FORM == 4 || FORM == 5 || FORM == 6 || FORM == 8 || FORM == 9)
 #define UNTIMED_TRY (FORM == 1 || FORM == 4)
 
 extern "C" {
@@ -103,12 +103,20 @@ VP_INLINE bool untouched(const W* w) noexcept
 #define ACQ(w) (w)->lock()
 #elif FORM == 8
 #define ACQ(w) (w)->lock_shared()
+#elif FORM == 9
+#define ACQ(w) const_cast<const W*>(w)->lock()
 #endif
 
 void vp_holder()
 {
 #if HOLD == 1
     auto h = g_w->lock();
+    vp_gset(0, 1);
+    vp_point();
+    vp_point();
+    vp_gset(0, 0);
+#elif HOLD == 3
+    auto h = const_cast<const W*>(g_w)->lock();
     vp_gset(0, 1);
     vp_point();
     vp_point();
@@ -145,7 +153,7 @@ void vp_contender()
 #if FORM == 2 || FORM == 3 || FORM == 5 || FORM == 6
         vp_assert(vp_ublockcount() == ubc0, 813);      // timed forms wait only in the timed primitive
 #endif
-#if FORM == 7 || FORM == 8
+#if FORM == 7 || FORM == 8 || FORM == 9
         vp_assert(nn, 812);
 #endif
 #endif
